@@ -5,11 +5,14 @@ CONSTANTS Dev
 VARIABLES cfg, st, last
 vars == <<cfg, st, last>>
 View == <<cfg, st>>
-Cfgs == [pt : BOOLEAN, tr : BOOLEAN, fb : {"none", "imm", "mut"}, path : {"t", "o.t", "d[k]", "o.d[k]"}, host : {"plain", "spec"}, dep : BOOLEAN]
+\* (the path shapes that continue after a key / have a dotted key are not crossed with DeprecatedAlias: the warning is independent of the path)
+Cfgs == {c \in [pt : BOOLEAN, tr : BOOLEAN, fb : {"none", "imm", "mut"}, path : {"t", "o.t", "d[k]", "o.d[k]", "e[k].t", "e[q].t", "e[k.k]", "e[k.q]"}, host : {"plain", "spec"}, dep : BOOLEAN] :
+            c.path \in {"e[k].t", "e[q].t", "e[k.k]", "e[k.q]"} => ~c.dep}
 Acts == {[op |-> o] : o \in {"read_alias", "delete_alias", "read_target", "delete_target", "deepcopy"}}
-        \cup {[op |-> "write_alias", v |-> v] : v \in {I(5), S("s")}} \cup {[op |-> "write_target", v |-> I(3)]}
+        \cup {[op |-> "write_alias", v |-> v] : v \in {I(5), S("s"), PN, I(1), I(2), I(7)}}          \* I(1) / I(2) / I(7): what the alias currently reads as (target, transformed target, fallback) \cup {[op |-> "write_target", v |-> I(3)]}
         \cup {[op |-> "cow_alias", v |-> I(6)], [op |-> "cow_target", v |-> I(4)]}
 Enabled(c, a) == /\ (a.op = "cow_alias" => c.host = "spec")
+                 /\ (a.op = "write_alias" /\ a.v = PN => ~c.pt)      \* None only as a LOCAL override (a None target under a transform is outside the model)
                  /\ (a.op = "cow_target" => c.host = "spec" /\ c.path = "t")
 Init == cfg \in Cfgs /\ st = [target |-> I(1), ov |-> N] /\ last = [a |-> [op |-> "init"], res |-> {"ok"}, val |-> N]
 Next == \E a \in Acts : Enabled(cfg, a) /\ LET r == Step(Dev, cfg, st, a) IN st' = r.st /\ cfg' = cfg /\ last' = [a |-> a, res |-> r.res, val |-> r.val]
